@@ -105,6 +105,8 @@ def classes(case):
 SUBS = [
     Sub("large-models", check_large, gen=lambda tier: _bool.large_models(), nontrivial=lambda case: True,
         classes=_bool.large_classes, n={"quick": 40, "thorough": 1000}, essential=["group>=257"]),
+    Sub("twin-subtrees", check, gen=lambda tier: _bool.twin_subtree_models(), nontrivial=lambda case: True,
+        classes=lambda case: {"twin-subtrees"}, n={"quick": 150, "thorough": 2000}),
     Sub("constraint-lists", check, gen=lambda tier: _bool.constraint_list_models(), nontrivial=nontrivial, classes=classes,
         n={"quick": 300, "thorough": 3000}, essential=["with-ctcs"], min_nontrivial=0.0),
     Sub("edit-histories", check, gen=lambda tier: _bool.edit_histories(S.BOOLEAN_ANY, 10, with_ctcs=True),
